@@ -1,7 +1,7 @@
 CONSTANTS
   MaxCmds = 3
   MaxPending = 3
-  MaxNum = 2
+  MaxNum = 1
   MaxItems = 1
   MaxUid = 1
   MaxCode = 1
